@@ -98,8 +98,17 @@ def check(m, run):
         P = Purity(m)
         mu = [x for x in P.summary(fi).mutations if x.root == 'param:' + pts]
         run.ob('PU1.input-not-mutated', fi.key, not mu, 'control polygon is only read' if not mu else 'input polygon mutated at `%s`' % norm(mu[0].node)[:70], site(fi))
-    eq536(m, run, el)
-    end1(m, run, rd)
+    # elevation and reduction are decided exactly on symbolic polygons (EL2); the rules that read the index spelling of Eq. 5.36 / the
+    # end-point assignments corroborate
+    from .. import skel_drivers as _sd
+    n0 = len(run.obs)
+    _sd.el2(m, run)
+    el_ok = all(o.ok for o in run.obs[n0:])
+    with run.corroborating(el_ok, 'EL2', rules=('EQ536.sum-range', 'EQ536.binomials', 'EQ536.rows', 'END1.end-points-kept')):
+        eq536(m, run, el)
+        end1(m, run, rd)
+    from . import c16 as _c16
+    _c16.check_binomial(m, run)
     kv2(m, run)
     pr1(m, run)
     skel_rows(m, run)
